@@ -288,9 +288,6 @@ func (m *wsModel) check9218(served *wsStream, preSendable map[uint32]bool) *vs.V
 		}
 		return vs.Violf("C13", "urgency_inversion", "rfc9218:urgency", "Pop served stream %d (u=%d,i=%d) while streams %v with smaller urgency were sendable", served.id, served.urg, served.inc, better)
 	}
-	if !m.popWindow {
-		return nil
-	}
 	// (2) non-incremental stickiness
 	if served.inc == 0 {
 		if prev, ok := m.lastNonInc[served.urg]; ok && prev != served.id {
@@ -299,6 +296,9 @@ func (m *wsModel) check9218(served *wsStream, preSendable map[uint32]bool) *vs.V
 			}
 		}
 		m.lastNonInc[served.urg] = served.id
+	}
+	if !m.popWindow {
+		return nil
 	}
 	// (3) bounded service of incremental streams at the minimal urgency
 	k := 0
@@ -336,9 +336,20 @@ func wsSameWrite(a, b writeFramer) bool {
 
 func (m *wsModel) endWindow() {
 	m.popWindow = false
-	m.lastNonInc = map[uint8]uint32{}
+	// (lastNonInc survives pushes and window changes: "a non-incremental stream is
+	// served until it has nothing sendable" also when another stream of its
+	// urgency gets data in the meantime; it is forgotten when the stream is
+	// closed or re-prioritised, see forgetNonInc)
 	for _, s := range m.streams {
 		s.wait, s.waitK = 0, 0
+	}
+}
+
+func (m *wsModel) forgetNonInc(id uint32) {
+	for u, cur := range m.lastNonInc {
+		if cur == id {
+			delete(m.lastNonInc, u)
+		}
 	}
 }
 
@@ -460,6 +471,7 @@ func wsRun(rt *rapid.T, prop string) {
 			}
 			s.closedQ = len(s.q)
 			s.q = nil
+			m.forgetNonInc(id)
 			ev("close %d (discarding %d)", id, s.closedQ)
 			viol = vs.Guard("C12", m.sig("panic_in_close"), func() { ws.CloseStream(id) })
 		case choice == 2: // adjust
@@ -472,6 +484,7 @@ func wsRun(rt *rapid.T, prop string) {
 				p.StreamDep = 0
 			}
 			s := m.streams[id]
+			m.forgetNonInc(id)
 			if s != nil && s.open {
 				s.urg, s.inc = p.urgency, p.incremental
 			} else if s == nil {
